@@ -980,7 +980,11 @@ func c18HTMLCase(hc *htmlCase, id int, sum *Summary, cw *CaseWriter) {
 	}
 	if real.Err != nil {
 		sum.Count("html_outcome", "error")
-		if !hc.WantErr {
+		if m := hc.coqModelInput(); m != "None" {
+			// inside the core model: the model must answer Err as well
+			cw.Add(fmt.Sprintf("KHtmlErr %d %s", id, strings.TrimSuffix(strings.TrimPrefix(m, "(Some "), ")")))
+			sum.Count("html_outcome", "error-in-core-model")
+		} else if !hc.WantErr {
 			sum.Skipped["html-unexpected-error"]++
 		}
 		return
@@ -1179,6 +1183,8 @@ func (r *Rng) genXMLTree(depth int, container bool) *XT {
 }
 
 var cssKeys = []string{"color", "background", "font_weight", "width", "text-align"}
+const failingClosure = "x->throw(\"boom\")"
+
 var closureSrcs = []string{"x->x", "x->\"<b>\"+string(x)+\"</b>\"", "x->[x,\"&\"]", "x->{v:x}"}
 
 func (r *Rng) genStyle(forList bool) *XT {
@@ -1231,6 +1237,9 @@ func (r *Rng) genStyle(forList bool) *XT {
 		}
 		return m
 	default:
+		if r.Chance(0.4) {
+			return &XT{Kind: "closure", S: failingClosure}
+		}
 		return &XT{Kind: "closure", S: closureSrcs[r.Pick(len(closureSrcs))]}
 	}
 }
@@ -1293,7 +1302,7 @@ func (r *Rng) genHTMLTree(depth, maxList int) *XT {
 		if r.Chance(0.2) {
 			f.ColSpan = r.Pick(4)
 		}
-		if f.Style.Kind == "closure" && f.Style.S != "x->x" && v.Kind != "str" && v.Kind != "int" {
+		if f.Style.Kind == "closure" && f.Style.S != "x->x" && f.Style.S != failingClosure && v.Kind != "str" && v.Kind != "int" {
 			f.Style.S = "x->x"
 		}
 		return f
@@ -1324,6 +1333,11 @@ func (t *XT) coqStyle() (string, bool) {
 	switch t.Kind {
 	case "str":
 		return "SStr " + CoqStr(t.S), true
+	case "closure":
+		if t.S == failingClosure {
+			return "SCloErr", true
+		}
+		return "", false
 	case "map":
 		// css maps only: string / int values, no table formats, no plainList key
 		var parts []string
@@ -1479,6 +1493,13 @@ func cmdC18(seed int64, tier, outDir string) {
 		{Tree: xfmt(&XT{Kind: "closure", S: "x->throw(\"boom\")"}, xs("v")), MaxList: 3, Inline: true, WantErr: true},
 		{Tree: xl(xs("a"), xfmt(&XT{Kind: "closure", S: "x->throw(\"boom\")"}, xl(xs("v")))), MaxList: 3, Inline: true, WantErr: true},
 		{Tree: xl(xs("a"), xfmt(&XT{Kind: "closure", S: "x->throw(\"boom\")"}, xs("v"))), MaxList: 3, Inline: true},
+		// around the cut-off: the failing element is the last rendered one / the first one replaced by more...
+		{Tree: xl(xs("a"), xfmt(&XT{Kind: "closure", S: failingClosure}, xl(xs("v"))), xs("c")), MaxList: 2, Inline: true, WantErr: true},
+		{Tree: xl(xs("a"), xs("b"), xfmt(&XT{Kind: "closure", S: failingClosure}, xl(xs("v")))), MaxList: 2, Inline: true},
+		{Tree: xl(xl(xs("a"), xfmt(&XT{Kind: "closure", S: failingClosure}, xl(xs("v")))), xl(xs("b"))), MaxList: 2, Inline: false, WantErr: true},
+		{Tree: xl(xl(xs("a"), xs("b"), xfmt(&XT{Kind: "closure", S: failingClosure}, xl(xs("v")))), xl(xs("b"))), MaxList: 2, Inline: false},
+		{Tree: xm("k", xlink("l", xfmt(&XT{Kind: "closure", S: failingClosure}, xs("v")))), MaxList: 2, Inline: true, WantErr: true},
+		{Tree: xfmt(xs("plainList"), xl(xs("a"), xfmt(&XT{Kind: "closure", S: failingClosure}, xi(1)))), MaxList: 1, Inline: true, WantErr: true},
 		{Tree: xl(xs("a"), &XT{Kind: "bool", B: true}), MaxList: 3, Inline: true, Custom: "panic", WantErr: true},
 		{Tree: xm("k", &XT{Kind: "bool", B: true}), MaxList: 3, Inline: false, Custom: "error", WantErr: true},
 		{Tree: xl(xs("<x>"), &XT{Kind: "bool", B: true}), MaxList: 3, Inline: true, Custom: "raw"},
